@@ -22,4 +22,7 @@ ShapesRW == { <<KM("w", "w"), KM("r", "w"), KM("w", "n")>>,
 ShapesSameOwner == { <<KM("w", "w"), KM("n", "r"), KM("n", "r"), KM("r", "w")>>,
                      <<KM("w", "w"), KM("r", "n"), KM("n", "r"), KM("r", "w")>>,
                      <<KM("w", "w"), KM("n", "r"), KM("r", "w"), KM("n", "r")>> }
+\* every task writes every key: each task has at most one dependency (its predecessor), so MaxDeps = 1 satisfies
+\* New's documented assumption with equality
+ShapesWriters == {[t \in Tasks |-> [k \in Keys |-> "w"]]}
 =============================================================================
